@@ -32,6 +32,66 @@ def oracle(pop):
                 g[k] = {"total": sum(vals), "max": max(vals), "min": min(vals), "mean": sum(vals) / g["count"]}
     return out
 
+RERUN_LOG = {}
+
+class _Worker(Agent):
+    def initialize(self):
+        self.agent_type = "worker"
+        self.state = "idle"
+        self.set_property("load", {"type": "Integer", "value": 0})
+    def act(self, time, round_no, step_no):
+        k = self.id
+        self.load = (k * 3 + int(time) * (k + 1)) % 7 - 3
+        if (int(time) + k) % 3 == 0:
+            self.state = "busy" if self.state == "idle" else "idle"
+
+class _Factory(Model):
+    def instantiate_model(self):
+        self.register_agent_factory("worker", lambda agent_id, model, properties: _Worker(agent_id, model, properties))
+    def end_round(self, time, sim_round, step):
+        RERUN_LOG[time] = [(a.state, a.get_property_value("load")) for a in self.agents]
+
+def run_rerun(case):
+    """through bptk.run_scenarios (hybrid runner): the statistics of a run are those of THAT run's population, also when
+    the scenario is simulated a second time after its population changed.  case = (first population, extra agents, stop)"""
+    from BPTK_Py import bptk as Bptk
+    n1, extra, stop = case
+    RERUN_LOG.clear()
+    b = Bptk()
+    b.register_scenario_manager({"smF": {"type": "abm", "model": _Factory(name="factory"), "scenarios": {
+        "base": {"runspecs": {"starttime": 1, "stoptime": stop, "dt": 1}, "properties": {}, "agents": [{"name": "worker", "count": n1}]}}}})
+    def check(phase):
+        common = dict(scenario_managers=["smF"], scenarios=["base"], agents=["worker"], agent_states=["idle", "busy"])
+        df = b.run_scenarios(return_format="df", **common)
+        df2 = b.run_scenarios(return_format="df", agent_properties=["load"], agent_property_types=["total"], **common)
+        for t in sorted(RERUN_LOG):
+            for st in ("idle", "busy"):
+                want = len([1 for (s_, l_) in RERUN_LOG[t] if s_ == st])
+                col = "smF_base_worker_" + st
+                got = float(df[col][t]) if col in df.columns else 0.0
+                if not close(got, float(want)):
+                    return "%s: run_scenarios reports %r agents in state %s at t=%r, the population of this run has %d" % (phase, got, st, t, want)
+                wt = sum(l_ for (s_, l_) in RERUN_LOG[t] if s_ == st)
+                col2 = "smF_base_worker_%s_load_total" % st
+                got2 = float(df2[col2][t]) if col2 in df2.columns else 0.0
+                if not close(got2, float(wt)):
+                    return "%s: run_scenarios reports total load %r in state %s at t=%r, the population of this run sums to %r" % (phase, got2, st, t, wt)
+        return None
+    try:
+        bad = check("first run (%d workers)" % n1)
+        if bad:
+            return bad
+        sc = b.get_scenario("smF", "base")
+        b.reset_scenario_cache(scenario_manager="smF", scenario="base")
+        sc.create_agents({"name": "worker", "count": extra})
+        RERUN_LOG.clear()
+        return check("second run after reset_scenario_cache and %d more workers" % extra)
+    finally:
+        try:
+            b.destroy()
+        except Exception:
+            pass
+
 def close(a, b):
     return a == b or (isinstance(a, (int, float)) and isinstance(b, (int, float)) and math.isclose(a, b, rel_tol=1e-9, abs_tol=1e-9))
 
@@ -132,7 +192,17 @@ def main():
     t_end = time.time() + hint.get('budget_s', 20)
     n = 0
     failures = []
-    while time.time() < t_end:
+    for rc in [(5, 3, 6), (2, 4, 4)]:
+        n += 1
+        try:
+            bad = run_rerun(rc)
+        except Exception as e:
+            bad = None      # harness trouble is never a violation
+        if bad:
+            body = PRELUDE + '\ncase = %r\nbad = run_rerun(case)\nprint("FAIL: " + bad if bad else "PASS")\nsys.stdout.flush()\nos._exit(1 if bad else 0)\n' % (rc,)
+            failures.append(dict(what=bad, script=write_replay('C13', 'rerun', body), known=None))
+            break
+    while time.time() < t_end and not failures:
         case = gen(rnd)
         n += 1
         try:
